@@ -69,6 +69,27 @@ func hostileKeyEncodings(r *core.Rand, valid []byte) [][]byte {
 		v.FillBytes(b[1:])
 		out = append(out, b)
 	}
+	// non-canonical field elements x + P for the smallest x that are x-coordinates of curve points (x = 0 included
+	// where the curve has such a point), with both sign bytes: the same residue as a valid point's x, not a valid encoding
+	{
+		lim := new(big.Int).Sub(new(big.Int).Lsh(big.NewInt(1), 384), p)
+		found := 0
+		for x := int64(0); found < 4 && big.NewInt(x).Cmp(lim) < 0 && x < 200; x++ {
+			b := make([]byte, 49)
+			b[0] = 2
+			big.NewInt(x).FillBytes(b[1:])
+			if xx, _ := elliptic.UnmarshalCompressed(curve, b); xx == nil {
+				continue
+			}
+			found++
+			for _, pf := range []byte{2, 3} {
+				e := make([]byte, 49)
+				e[0] = pf
+				new(big.Int).Add(p, big.NewInt(x)).FillBytes(e[1:])
+				out = append(out, e)
+			}
+		}
+	}
 	// wrong prefix bytes on a valid x
 	for _, pf := range []byte{0, 1, 4, 5, 6, 7, 0xff} {
 		b := clone(valid)
